@@ -88,11 +88,21 @@ StepTol(c, n, N, q, D, kl, kg, kd) ==
 (* are ordered like their bit patterns, so "lambda <= U" is a comparison of recorded bit patterns            *)
 RECURSIVE Msb(_)
 Msb(n) == IF n <= 1 THEN 0 ELSE 1 + Msb(n \div 2)
-FloatBits(uN, uK) == LET m == Msb(uN) IN (m - uK + 127) * 8388608 + (uN - 2^m) * 2^(23 - m)
+FloatBits(uN, uK) == IF uN = 0 THEN 0 ELSE LET m == Msb(uN) IN (m - uK + 127) * 8388608 + (uN - 2^m) * 2^(23 - m)
 MaxFloatBits == 2139095039      \* 0x7F7FFFFF, the class default of the upper bound
 UpperBits(c) == IF c.uInf THEN MaxFloatBits ELSE FloatBits(c.uN, c.uK)
 (* "Iterates therefore always lie within [0, upper bound]" on recorded bit patterns *)
 WithinBounds(c, bits) == \A v \in 1..Len(bits) : bits[v] >= 0 /\ bits[v] <= UpperBits(c)
+
+(* SCALE CLAUSE (a consequence of the law, no prior): multiply the data, the additive term, the image and the upper bound   *)
+(* by 2^j - the gradient P_S^T(y/(P lambda + a) - 1) is unchanged, the denominator P^T((P 1)/y) is divided by 2^j, so the     *)
+(* increment and the new image are multiplied by 2^j, exactly (a power of two only moves the exponent of a float).            *)
+ScaledBits(bits, j) == [v \in 1..Len(bits) |-> IF bits[v] = 0 THEN 0 ELSE bits[v] + j * 8388608]
+ScaledConfig(c1, c2, j) ==
+  /\ ~c1.prior /\ ~c2.prior /\ c2.N = c1.N /\ c2.startSubset = c1.startSubset
+  /\ << c2.aN, c2.aK, c2.gN, c2.gK >> = << c1.aN, c1.aK, c1.gN, c1.gK >>
+  /\ c2.uInf = c1.uInf /\ (~c1.uInf => (c2.uK = c1.uK /\ c2.uN = c1.uN * 2^j))
+ScaledSeq(q1, q2, j) == Len(q1) = Len(q2) /\ \A i \in 1..Len(q1) : q2[i] = q1[i] * 2^j
 
 -----------------------------------------------------------------------------
 (* Part 2.  Exact instances on the explicit matrix (encoding E).                               *)
@@ -162,8 +172,14 @@ ThresholdRegime(D) == D <= 0
 (*   "no_prior_term"     the penalty term never reaches the denominator                          *)
 (*   "refill_on_resume"  voxels without sensitivity are set to 0 at the first sub-iteration of   *)
 (*                       EVERY run (also a resumed one) - finding C08-resume-nonidentifiable     *)
+(*   "silent_rerun"      reconstruct on a used object without set_up runs instead of reporting  *)
+(*                       an error - finding C08-reconstruct-without-setup                       *)
 NoDen == -1
 FreshObject == [den |-> NoDen, start |-> 0, last |-> 0, k |-> 0, ready |-> FALSE]
+(* reconstruct WITHOUT set_up on an object whose run is over ("you have to call set_up() before running a new            *)
+(* reconstruction"): an error, the object stays as it is - unless the defective variant lets it run                      *)
+ObjRerunWithoutSetUp(o, variant) == IF variant = "silent_rerun" THEN [o EXCEPT !.k = o.start, !.ready = TRUE] ELSE o
+RerunReportsError(variant) == variant # "silent_rerun"
 ObjSetUp(o, start, last, variant) ==
   [o EXCEPT !.den = IF variant = "stale_den" /\ o.den # NoDen THEN o.den ELSE 0,
             !.start = start, !.last = last, !.k = start, !.ready = TRUE]
